@@ -33,6 +33,27 @@ CLAIMS = {
              "real stacks by the oracle (theorems for the transports: C01/C02/C11). Proved for the code as repaired by fix: commits D11, D12.",
         technique="Lean 4 theorems over source-regenerated codecs + list induction + decide over reflected lamp tables; correspondence; e2e oracle",
         design="§8 C16"),
+    'C09': dict(
+        text="Proof (Lean 4), J1939-21: single-step theorems for every state/record/frame — first CTS grants min(own max, RTS limit, total); "
+             "later CTS grants min(negotiated window, remaining) for the next ungranted packet and the window never changes; a CTS opens a "
+             "window of at most the granted number; a hold opens nothing; no TP.DT while waiting for CTS; the send-window loop (induction "
+             "over the loop) emits consecutive packets, never beyond the wait-on packet, and returns to WAITING_CTS there; a BAM record emits "
+             "exactly one TP.DT per due deadline and re-arms at now + interval.  Partial: the trace-level statement is the induction of these "
+             "steps over a session (not yet a single theorem); J1939-22 pacing is covered by correspondence/oracle only.",
+        note="Model/Dll21.lean is tied to j1939_21.py by lock-step correspondence on recorded nominal and hostile scripts (tables dumped after "
+             "every received frame) and its leaves are regenerated from the source; oracle: real stacks + an independent reference peer "
+             "(windows, holds, silence after hold, RTS limits) with bus-trace analysis.",
+        technique="Lean 4 single-step + loop-induction theorems over hand model with regenerated leaves; lock-step correspondence; reference-peer oracle",
+        design="§8 C09"),
+    'C10': dict(
+        text="Proof (Lean 4), J1939-21: send_pgn (> 8 bytes) returns False iff the (SA, DA) pair is in the send table, a refused call emits "
+             "nothing and leaves the state equal; an accepted call occupies exactly its own pair; RTS/BAM/TP.DT handling and the receive side "
+             "of the background pass never touch the send table (inbound never consumes outbound capacity).  Partial: release within bounded "
+             "time is C07's invariant; the J1939-22 session pools are covered by correspondence/oracle only until Dll22 theorems exist.",
+        note="Same tie as C09. Oracle: histories of transfers with losses, injected peer aborts and silent peers on real stacks, every "
+             "send_pgn result judged against a bus-only tracker of busy pairs, then full concurrency. Proved for the code as repaired by fix D1.",
+        technique="Lean 4 theorems over hand model with regenerated leaves; lock-step correspondence; history oracle on real stacks",
+        design="§8 C10"),
 }
 
 NOT_YET = {}
